@@ -85,8 +85,8 @@ def cases(tier, seed):
                 cfgs = [("none", "dense", False, 0), ("full", "callable", True, 0), ("none", "callable", False, 1),
                         ("partial", "dense", True, n - 1)]
             else:
-                cfgs = [(ro, mf, ra, nd_) for ro in ("none", "partial", "full") for mf in ("dense", "callable")
-                        for ra in (False, True) for nd_ in sorted({0, 1, n - 1})]
+                cfgs = [(ro, mf, ra, nd_) for ro in ("none", "partial", "full") for mf, ra in (("dense", False), ("callable", True))
+                        for nd_ in sorted({0, 1, n - 1})]
             for ro, mf, ra, nd_ in cfgs:
                 if order > n and nd_ > 0 and quick:
                     continue
@@ -97,7 +97,7 @@ def cases(tier, seed):
             out.append(dict(part="quad", n=n, order=n, reorth=ro, matform="dense", radau=False, ndefl=nd_, seed=seed,
                             check="deflated"))
     for n in dims:
-        for order in sorted({1, max(1, n - 1), n, n + 1}):
+        for order in sorted({1, n, n + 1} | (set() if quick else {max(1, n - 1)})):
             for pset in ("signs", "basis"):
                 for api in ("public-dense", "public-callable", "from-lanczos", "slq-B1", "slq-B3", "slq-Ball"):
                     if quick and pset == "basis" and api in ("public-callable", "slq-B1"):
@@ -753,8 +753,15 @@ def run_elbo(case):
                   use_radau_as_bound=(opt == "radau"))
         if slq_kwargs:
             kw["slq_kwargs"] = slq_kwargs
-        with seam:
-            es, stt = _call_elbo("re", built, k, None, **kw)
+        try:
+            with seam:
+                es, stt = _call_elbo("re", built, k, None, **kw)
+        except ValueError as e:
+            # lam_min is the unit (signal) / zero (data) eigenvalue itself; when the remaining spectrum contains it and
+            # the order saturates the Krylov space the library refuses loudly -> outside the premise of the Radau option
+            if opt == "radau" and "Gauss-Radau quadrature failed" in str(e):
+                return skip("Radau endpoint coincides with an eigenvalue of the remaining spectrum (library raises ValueError)")
+            raise
         if k < nrel and not seam.calls:
             return bad("the probe seam was never reached", finding_key="seam|not-reached")
         # closed form of the one-sigma error: probes deflated by the k top eigenvectors of the operator
